@@ -57,6 +57,7 @@ class Ctx:
                         pass
         self.violations = []       # list of dict(kind, detail, replay)
         self.known = []            # KNOWN-FINDING lines printed
+        self.known_hits = {}       # key -> times observed in this run
         self.notes = []
         self.cov = {}
         self.assumptions = []
@@ -438,6 +439,30 @@ def load_known():
     return {"findings": [], "fixed": []}
 
 
+def known_listed(ctx):
+    """{key: text} of the recorded-but-unrepaired findings of this property (committed file;
+    never written at run time)."""
+    out = {}
+    for f in load_known().get("findings", []):
+        if isinstance(f, dict) and f.get("property") == ctx.prop:
+            out[f["key"]] = f["text"]
+    return out
+
+
+def split_known(ctx, failures):
+    """Oracle failures tagged "[known:KEY] ..." whose KEY is a listed finding are counted and
+    removed; with the entry gone from known_findings.json they are ordinary failures again."""
+    listed = known_listed(ctx)
+    rest = []
+    for f in failures:
+        m = re.match(r"\[known:([^\]]+)\] ", f)
+        if m and m.group(1) in listed:
+            ctx.known_hits[m.group(1)] = ctx.known_hits.get(m.group(1), 0) + 1
+        else:
+            rest.append(f)
+    return rest
+
+
 def save_replay(ctx, name, obj):
     os.makedirs(REPLAYS, exist_ok=True)
     k = len(ctx.violations)
@@ -489,6 +514,11 @@ def finish(ctx, level="proof", checker_cmd=None, trusted=None, extra_cov=None):
         "notes": ctx.notes,
     }
     os.makedirs(EVIDENCE, exist_ok=True)
+    with open(os.path.join(EVIDENCE, ctx.prop + ".json"), "w") as f:
+        json.dump(ev, f, indent=1)
+    for key, text in known_listed(ctx).items():
+        ctx.known.append("%s (observed %d times in this run)" % (text, ctx.known_hits.get(key, 0)))
+    ev["known_findings"] = ctx.known
     with open(os.path.join(EVIDENCE, ctx.prop + ".json"), "w") as f:
         json.dump(ev, f, indent=1)
     for k in ctx.known:
@@ -544,13 +574,16 @@ class Differential:
     re-creates the system under test), so episodes are independent and can be shrunk
     on their own."""
 
-    def __init__(self, ctx, binary, test="TestVerifDriver", env=None, timeout=600):
+    def __init__(self, ctx, binary, test="TestVerifDriver", env=None, timeout=600, project=None):
         self.ctx = ctx
         self.binary = binary
         self.test = test
         self.env = env
         self.timeout = timeout
         self.n = 0
+        # project: implementation output line -> the canonical part the model predicts (the rest
+        # of the line is detail for the property oracle: timings, generated values, full headers)
+        self.project = project or (lambda l: l)
 
     def run_both(self, episodes, want_model=True):
         self.n += 1
@@ -596,8 +629,8 @@ class Differential:
         self.last = (si, sm)
         reported = 0
         for ep, oi, om in zip(episodes, si, sm):
-            ofail = oracle(ep, oi) if oracle else []
-            d = first_diff(oi, om)
+            ofail = split_known(ctx, oracle(ep, oi)) if oracle else []
+            d = first_diff([self.project(x) for x in oi], om)
             if not ofail and d is None:
                 continue
             if reported >= 3:
@@ -605,7 +638,7 @@ class Differential:
                 continue
             reported += 1
             if ofail:
-                small = self.shrink(ep, lambda e, o: bool(oracle(e, o)))
+                small = self.shrink(ep, lambda e, o: bool([f for f in oracle(e, o) if not re.match(r"\[known:", f) or f[7:f.index("]")] not in known_listed(ctx)]))
                 rc2, _, oi2, om2 = self.run_both([small])
                 violation(ctx, label + "-oracle", {
                     "what": "property oracle fails on the implementation's own outputs",
@@ -615,7 +648,7 @@ class Differential:
             else:
                 small = self.shrink_diff(ep)
                 rc2, _, oi2, om2 = self.run_both([small])
-                d2 = first_diff(oi2, om2)
+                d2 = first_diff([self.project(x) for x in oi2], om2)
                 ol = op_lines(small)
                 violation(ctx, label + "-correspondence", {
                     "what": "model and implementation disagree; the property oracle found no failing input, "
@@ -642,7 +675,7 @@ class Differential:
         def fails(b):
             cand = head + b
             rc, _, oi, om = self.run_both([cand])
-            return rc == 0 and first_diff(oi, om) is not None
+            return rc == 0 and first_diff([self.project(x) for x in oi], om) is not None
         return head + ddmin(body, fails, max_runs=150)
 
 
